@@ -13,7 +13,7 @@ TIES = ["errors_Error", "errors_ClientError", "errors_errorToPbError", "errors_d
         "streamwriter_Close", "streamwriter_sendErr", "streamwriter_New", "streamreader_Read", "di_StoreService", "app_New"]
 TRUSTED_BASE = [
     "Lean 4.33.0 kernel; axioms per theorem under coverage.theorems",
-    "models FsDb/Model/Wire.lean (error sets, codes, levels, chunked writer/reader); gRPC itself, protobuf, metadata transport and the interceptors are NOT modelled: validated by replaying generated histories through a real server on loopback",
+    "models FsDb/Model/Wire.lean (error sets, codes, levels, chunked writer/reader) and FsDb/Model/Rpc.lean (a call = client encoding, the server's handler on the same use cases as the inline client, server encoding, client decoding); gRPC itself (ordered delivery, metadata transport, MESSAGE-SIZE LIMITS), protobuf and the interceptors are NOT modelled: validated by replaying generated histories through a real server on loopback",
     "tie: skeleton texts of the adapter functions, the external client, the server handlers, the interceptors; differential runs (a) error mapping over all 256 subsets x 3 wrappings through proto marshal/unmarshal, (b) the op files of the inline correspondence replayed through pkg/external against internal/app and compared with the specification",
 ]
 ASSUMPTIONS = ["gRPC delivers stream messages in order and reliably on an unbroken connection"]
